@@ -3,6 +3,7 @@ from __future__ import annotations
 
 import copy
 import random
+from pathlib import Path
 
 from world import (FH_CONDS, FH_DEFAULT, IND_DEFAULT, Clock, World, limbs, mkcfg)
 
@@ -538,3 +539,47 @@ def isolation(tid: int, seed: int) -> list:
         a.w.cleanup()
         if sib is not None:
             sib.w.cleanup()
+
+
+def isolation_process(tid: int, seed: int) -> list:
+    """C11, process-level state: transaction T (segment length derived from the maximum packet length) on handlers constructed
+    AFTER sibling handlers of the same process, with other id / sequence-number widths, ran transfers towards the same remote
+    entity - versus T on fresh handlers in a pristine interpreter (harness/fresh_run.py)."""
+    import json
+    import subprocess
+    import sys
+    import pair as pairmod
+    rng = random.Random(seed)
+    idw, qw = rng.choice([1, 2, 4]), rng.choice([1, 2, 4])
+    base = 4 + 2 * idw + qw + 4
+    cfg = mkcfg(mode=rng.choice(["ACK", "UNACK"]), closure=rng.random() < 0.5, segLen=0, maxPkt=base + rng.choice([8, 12]), sIdW=idw, dIdW=idw,
+                seqW=qw, file=[rng.randrange(256) for _ in range(rng.choice([0, 5, 20, 31]))], seq0=rng.choice([0, 3]))
+    sibs = []
+    try:
+        for _ in range(rng.randint(1, 2)):
+            w2, q2 = rng.choice([1, 2, 4]), rng.choice([1, 2, 4])
+            s = pairmod.Pair(mkcfg(mode="UNACK", segLen=0, maxPkt=cfg["maxPkt"], sIdW=w2, dIdW=w2, seqW=q2, file=list(range(30)),
+                                   srcName="sib.bin", dstName="sibdst.bin"))
+            sibs.append(s)
+            s.put()
+            s.run_on(one_txn=True)
+        a = pairmod.Pair(cfg)
+        try:
+            tscript = rng.choice([{}, {("sd", rng.randint(0, 4)): "drop"}])
+            a.put()
+            a_done = a.run_on(script=dict(tscript), one_txn=True)
+            job = dict(cfg=cfg, script=[[l, n, k] for (l, n), k in tscript.items()])
+            p = subprocess.run([sys.executable, str(Path(__file__).resolve().parent / "fresh_run.py")], input=json.dumps(job), text=True,
+                               capture_output=True, timeout=120)
+            if p.returncode != 0:
+                raise RuntimeError("fresh_run failed: " + p.stderr[-500:])
+            tb = json.loads(p.stdout)
+            tb.update(tid=tid, props=["C11", "C10"], ev2=a.w.ev, done2=a_done, sched=[["script", str(sorted(tscript.items()))]])
+            ta = a.w.trace(tid + 1000000, "pair")
+            ta.update(props=["C10"], nfaults=a.nfaults, ncorrupt=0, done=a_done, cuts=[])
+            return [tb, ta]
+        finally:
+            a.w.cleanup()
+    finally:
+        for s in sibs:
+            s.w.cleanup()
